@@ -104,10 +104,74 @@ structure ChunkOK (song : Song) (b : Built) : Prop where
   len : b.seq.length < 65536
   nsub : b.conv.subList.length < 32768
   fitsS : ∀ evs ∈ b.conv.subList, ∀ ev ∈ evs, ev.type = mds_PAT → ev.arg < 256
-  slot : ∀ (k : Nat) (hk : k < b.conv.subList.length), ∃ stream pre rest,
-    slotTarget b.seq (4 + 4 * b.trackList.length) k = some pre.length ∧
+  slot : ∀ (k : Nat) (hk : k < b.conv.subList.length), ∃ p stream rest,
+    slotTarget b.seq (4 + 4 * b.trackList.length) k = some p ∧
     convertTrack b.conv.subList.length b.conv.macroList.length b.conv.subList[k] = .ok stream ∧
-    b.seq = pre ++ stream ++ rest
+    b.seq.drop p = stream ++ rest
+
+/-- the stream of a called subroutine, given what is known about the calls one level deeper: its
+bracket structure, its structured encoding, and where it stands in the chunk -/
+theorem sub_stream {song : Song} (pf : Timeline.Platform) {b : Built} (hp : PlainSong song) (hc : ChunkOK song b) (mj : Nat)
+    (k : Nat) (hkl : k + 1 ≤ limit)
+    (ih : CallH pf b.conv.subMap b.seq (4 + 4 * b.trackList.length) mj (callK song k) (CalleeNoSeg song))
+    (d : Nat) (e : Event) (its : List Item) (idx : Nat) (hq : CalleeNoSeg song e)
+    (hcall : callK song (k + 1) d (trackIdOfParam e.param) = .ok its)
+    (hmem : (subKey e.param false false, idx) ∈ b.conv.subMap) (h256 : Mds.u16 (idx : Int) < 256) :
+    ∃ (ts : List Codec.Node) (eA : Enc) (pre : List Nat), linL ts = true ∧ brkOkL false ts = true ∧
+      callsOkL b.seq (4 + 4 * b.trackList.length) mj ts ∧
+      mk (Codec.expL b.conv.subList.length b.conv.macroList.length ts) = itemsTicks pf its ∧
+      encL b.conv.subList.length b.conv.macroList.length ts {} = .ok eA ∧ pre ++ eA.out ++ [mds_FINISH] <+: b.seq ∧
+      slotTarget b.seq (4 + 4 * b.trackList.length) (Mds.u16 (idx : Int) % 256) = some pre.length := by
+  have hcall0 := hcall
+  simp only [callK] at hcall
+  by_cases hf : d ≥ limit
+  · simp [hf] at hcall
+  simp only [hf, if_false] at hcall
+  cases htr : song.track? (trackIdOfParam e.param) with
+  | none => rw [htr] at hcall; simp at hcall
+  | some tevs =>
+    rw [htr] at hcall
+    simp only at hcall
+    have hmemT := track_mem htr
+    have hns : ∀ x ∈ tevs, x.kind ≠ .segno := hq tevs htr
+    have hperf : perf song tevs = .ok its := perf_of_callK song hkl htr hcall0
+    have hwf := hp.wf hmemT hperf
+    -- the subroutine's event list
+    obtain ⟨evs, hsub, hfl⟩ := hc.flat (subKey e.param false false, idx) hmem (by simp)
+    obtain ⟨ms, r, hem, hr, hevs⟩ := hfl e.param tevs rfl htr hwf hns
+    have hidx : idx < b.conv.subList.length := by
+      rw [← hc.maps.subLen]; exact val_lt_of_mem hc.maps.sub hmem
+    have hget : b.conv.subList[idx] = evs := by
+      rw [List.getElem?_eq_getElem hidx] at hsub; exact Option.some.inj hsub
+    have hevmem : evs ∈ b.conv.subList := by rw [← hget]; exact List.getElem_mem hidx
+    -- its bracket structure
+    have hcl : closedL (parse tevs) := closed_of_ok (callK song k) (spine_parse tevs (hp.noEnd _ _ hmemT)) _ _ hcall
+    have hev : ∀ e ∈ flattenL (parse tevs), EvOK (CalleeNoSeg song) e := by
+      rw [flatten_parse]; exact hp.evOK hmemT (fun e he => he) hns
+    have hfit : ∀ ev ∈ ms, ev.type = mds_PAT → ev.arg < 256 :=
+      fun ev hev' => hc.fitsS evs hevmem ev (by rw [hevs]; simp [hev'])
+    obtain ⟨ts, hflat, hlin, hbrk, hcalls, hticks, _, _⟩ := piece_sem b.conv.subList.length b.conv.macroList.length pf
+      b.conv.subMap b.seq (4 + 4 * b.trackList.length) mj (callK song k) _ ih (parse tevs) hcl hev (d + 1) its hcall
+      false ms r false (by rw [flatten_parse]; exact hem) hfit
+    -- its bytes
+    obtain ⟨p, stream, rest, hslot, hconv, hdrop⟩ := hc.slot idx hidx
+    rw [hget, hevs, ← hflat] at hconv
+    have hdl : (b.seq.drop p).length = stream.length + rest.length := by rw [hdrop]; simp
+    have hsl : stream.length < 65536 := by
+      have := hc.len; simp at hdl; omega
+    obtain ⟨eA, hA, hstream⟩ := shape_f_conv _ _ ts hlin hbrk 0 stream hconv hsl
+    have hpl : p < b.seq.length := by
+      rw [hstream] at hdl; simp at hdl; omega
+    have hseq : b.seq = b.seq.take p ++ (stream ++ rest) := by rw [← hdrop]; exact (List.take_append_drop p b.seq).symm
+    have hprel : (b.seq.take p).length = p := by simp; omega
+    have hpre : b.seq.take p ++ eA.out ++ [mds_FINISH] <+: b.seq := by
+      conv => rhs; rw [hseq, hstream]
+      simp [List.append_assoc]
+    have hu : Mds.u16 (idx : Int) = idx := by
+      have := hc.nsub; unfold Mds.u16; omega
+    refine ⟨ts, eA, b.seq.take p, hlin, hbrk, hcalls, hticks, hA, hpre, ?_⟩
+    rw [hu] at h256 ⊢
+    rw [Nat.mod_eq_of_lt h256, hprel]; exact hslot
 
 /-- **every call of the song finds its subroutine**: by induction on the call budget, each subroutine
 stream that a performance of the song calls plays, entered through its pointer-table slot, the
@@ -121,53 +185,28 @@ theorem callH_all {song : Song} (pf : Timeline.Platform) {b : Built} (hp : Plain
   | k + 1, hkl => by
     intro d e its idx hk hq hcall hmem h256
     have ih := callH_all pf hp hc mj k (by omega)
-    have hcall0 := hcall
-    simp only [callK] at hcall
-    by_cases hf : d ≥ limit
-    · simp [hf] at hcall
-    simp only [hf, if_false] at hcall
-    cases htr : song.track? (trackIdOfParam e.param) with
-    | none => rw [htr] at hcall; simp at hcall
-    | some tevs =>
-      rw [htr] at hcall
-      simp only at hcall
-      have hmemT := track_mem htr
-      have hns : ∀ x ∈ tevs, x.kind ≠ .segno := hq tevs htr
-      have hperf : perf song tevs = .ok its := perf_of_callK song hkl htr hcall0
-      have hwf := hp.wf hmemT hperf
-      -- the subroutine's event list
-      obtain ⟨evs, hsub, hfl⟩ := hc.flat (subKey e.param false false, idx) hmem (by simp)
-      obtain ⟨ms, r, hem, hr, hevs⟩ := hfl e.param tevs rfl htr hwf hns
-      have hidx : idx < b.conv.subList.length := by
-        rw [← hc.maps.subLen]; exact val_lt_of_mem hc.maps.sub hmem
-      have hget : b.conv.subList[idx] = evs := by
-        rw [List.getElem?_eq_getElem hidx] at hsub; exact Option.some.inj hsub
-      have hevmem : evs ∈ b.conv.subList := by rw [← hget]; exact List.getElem_mem hidx
-      -- its bracket structure
-      have hcl : closedL (parse tevs) := closed_of_ok (callK song k) (spine_parse tevs (hp.noEnd _ _ hmemT)) _ _ hcall
-      have hev : ∀ e ∈ flattenL (parse tevs), EvOK (CalleeNoSeg song) e := by
-        rw [flatten_parse]; exact hp.evOK hmemT (fun e he => he) hns
-      have hfit : ∀ ev ∈ ms, ev.type = mds_PAT → ev.arg < 256 :=
-        fun ev hev' => hc.fitsS evs hevmem ev (by rw [hevs]; simp [hev'])
-      obtain ⟨ts, hflat, hlin, hbrk, hcalls, hticks, _, _⟩ := piece_sem b.conv.subList.length b.conv.macroList.length pf
-        b.conv.subMap b.seq (4 + 4 * b.trackList.length) mj (callK song k) _ ih (parse tevs) hcl hev (d + 1) its hcall
-        false ms r false (by rw [flatten_parse]; exact hem) hfit
-      -- its bytes
-      obtain ⟨stream, pre, rest, hslot, hconv, hseq⟩ := hc.slot idx hidx
-      rw [hget, hevs, ← hflat] at hconv
-      have hsl : stream.length < 65536 := by
-        have := hc.len; rw [hseq] at this; simp at this; omega
-      obtain ⟨eA, hA, hstream⟩ := shape_f_conv _ _ ts hlin hbrk 0 stream hconv hsl
-      obtain ⟨e', he', hsp⟩ := stream_at_subPlays b.conv.subList.length b.conv.macroList.length ts hlin
-      rw [hA] at he'; injection he' with he'; subst he'
-      have hpre : pre ++ eA.out ++ [mds_FINISH] <+: b.seq := by
-        rw [hseq, hstream]; simp [List.append_assoc]
-      have hplay := hsp pre b.seq (4 + 4 * b.trackList.length) mj hcalls hpre
-      have hu : Mds.u16 (idx : Int) = idx := by
-        have := hc.nsub; unfold Mds.u16; omega
-      refine ⟨Codec.expL b.conv.subList.length b.conv.macroList.length ts, ⟨pre.length, ?_, hplay⟩, hticks⟩
-      rw [hu] at h256 ⊢
-      rw [Nat.mod_eq_of_lt h256]; exact hslot
+    obtain ⟨ts, eA, pre, hlin, _, hcalls, hticks, hA, hpre, hslot⟩ :=
+      sub_stream pf hp hc mj k hkl ih d e its idx hq hcall hmem h256
+    obtain ⟨e', he', hsp⟩ := stream_at_subPlays b.conv.subList.length b.conv.macroList.length ts hlin
+    rw [hA] at he'; injection he' with he'; subst he'
+    exact ⟨Codec.expL b.conv.subList.length b.conv.macroList.length ts,
+      ⟨pre.length, hslot, hsp pre b.seq (4 + 4 * b.trackList.length) mj hcalls hpre⟩, hticks⟩
+
+/-- **every called subroutine stream is well-formed**: the instruction walker, started on the slot's
+target, accepts it (balanced loops, break offsets behind their loop end, terminator at depth 0, all
+inside the chunk) -/
+theorem sub_walks {song : Song} (pf : Timeline.Platform) {b : Built} (hp : PlainSong song) (hc : ChunkOK song b)
+    (k : Nat) (hkl : k + 1 ≤ limit) (d : Nat) (e : Event) (its : List Item) (idx : Nat) (hq : CalleeNoSeg song e)
+    (hcall : callK song (k + 1) d (trackIdOfParam e.param) = .ok its)
+    (hmem : (subKey e.param false false, idx) ∈ b.conv.subMap) (h256 : Mds.u16 (idx : Int) < 256) :
+    ∃ t n, slotTarget b.seq (4 + 4 * b.trackList.length) (Mds.u16 (idx : Int) % 256) = some t ∧
+      ∀ start fuel, fuel ≥ n → SeqWf.walk b.seq start fuel { pc := t } = .ok (t + n) := by
+  obtain ⟨ts, eA, pre, hlin, _, _, _, hA, hpre, hslot⟩ :=
+    sub_stream pf hp hc 0 k hkl (callH_all pf hp hc 0 k (by omega)) d e its idx hq hcall hmem h256
+  refine ⟨pre.length, eA.out.length + 1, hslot, fun start fuel hf => ?_⟩
+  have := walk_f_at b.conv.subList.length b.conv.macroList.length ts hlin eA hA pre b.seq start
+    (by simpa [List.append_assoc] using hpre) fuel hf
+  rw [this]; congr 1
 
 /-! ### the items of a performance of a plain song -/
 
@@ -241,7 +280,136 @@ theorem perf_of_expected {song : Song} {pf : Timeline.Platform} {root : List Eve
 
 theorem mk_loopMark : mk [Tk.loopMark] = [Tk.loopMark] := rfl
 
-/-- **a channel track of the chunk plays the expected tick string** (loop-back followed once) -/
+def isCmd : Tk → Bool
+  | .cmd _ _ => true
+  | _ => false
+
+theorem cmdOf_cmd (pf : Timeline.Platform) (e : Event) : ∀ tk ∈ Timeline.cmdOf pf e, isCmd tk = true := by
+  intro tk h
+  unfold Timeline.cmdOf at h
+  by_cases t : e.type = ev_SLUR
+  · rw [if_pos t] at h; rw [List.mem_singleton] at h; subst h; rfl
+  rw [if_neg t] at h; clear t
+  by_cases t : e.type = ev_TRANSPOSE_REL
+  · rw [if_pos t] at h; rw [List.mem_singleton] at h; subst h; rfl
+  rw [if_neg t] at h; clear t
+  by_cases t : e.type = ev_VOL
+  · rw [if_pos t] at h; rw [List.mem_singleton] at h; subst h; rfl
+  rw [if_neg t] at h; clear t
+  by_cases t : e.type = ev_VOL_REL ∨ e.type = ev_VOL_FINE_REL
+  · rw [if_pos t] at h; rw [List.mem_singleton] at h; subst h; rfl
+  rw [if_neg t] at h; clear t
+  by_cases t : e.type = ev_TEMPO_BPM
+  · rw [if_pos t] at h; rw [List.mem_singleton] at h; subst h; rfl
+  rw [if_neg t] at h; clear t
+  by_cases t : e.type = ev_INS
+  · rw [if_pos t] at h; rw [List.mem_singleton] at h; subst h; rfl
+  rw [if_neg t] at h; clear t
+  by_cases t : e.type = ev_TRANSPOSE
+  · rw [if_pos t] at h; rw [List.mem_singleton] at h; subst h; rfl
+  rw [if_neg t] at h; clear t
+  by_cases t : e.type = ev_DETUNE
+  · rw [if_pos t] at h; rw [List.mem_singleton] at h; subst h; rfl
+  rw [if_neg t] at h; clear t
+  by_cases t : e.type = ev_VOL_FINE
+  · rw [if_pos t] at h; rw [List.mem_singleton] at h; subst h; rfl
+  rw [if_neg t] at h; clear t
+  by_cases t : e.type = ev_PAN
+  · rw [if_pos t] at h; rw [List.mem_singleton] at h; subst h; rfl
+  rw [if_neg t] at h; clear t
+  by_cases t : e.type = ev_PAN_ENVELOPE
+  · rw [if_pos t] at h; rw [List.mem_singleton] at h; subst h; rfl
+  rw [if_neg t] at h; clear t
+  by_cases t : e.type = ev_PITCH_ENVELOPE
+  · rw [if_pos t] at h; rw [List.mem_singleton] at h; subst h; rfl
+  rw [if_neg t] at h; clear t
+  by_cases t : e.type = ev_PORTAMENTO
+  · rw [if_pos t] at h; rw [List.mem_singleton] at h; subst h; rfl
+  rw [if_neg t] at h; clear t
+  by_cases t : e.type = ev_DRUM_MODE
+  · rw [if_pos t] at h; rw [List.mem_singleton] at h; subst h; rfl
+  rw [if_neg t] at h; clear t
+  by_cases t : e.type = ev_TEMPO
+  · rw [if_pos t] at h; rw [List.mem_singleton] at h; subst h; rfl
+  rw [if_neg t] at h; clear t
+  by_cases t : e.type = ev_PLATFORM
+  · rw [if_pos t] at h; obtain ⟨p, _, rfl⟩ := List.mem_map.mp h; rfl
+  rw [if_neg t] at h
+  exact absurd h (List.not_mem_nil)
+
+theorem itTicks_noMark (pf : Timeline.Platform) (i : Item) : Tk.loopMark ∉ itTicks pf i := by
+  unfold itTicks Timeline.noteTicks
+  intro h
+  split at h
+  · simp only [List.mem_append, List.mem_replicate] at h
+    rcases h with h | h
+    · split at h
+      · simp at h
+      · simp [List.mem_replicate] at h
+    · simp at h
+  · split at h
+    · simp [List.mem_replicate] at h
+    · split at h
+      · simp [List.mem_replicate] at h
+      · simp only [List.mem_append, List.mem_replicate] at h
+        rcases h with h | h
+        · have := cmdOf_cmd pf i.ev _ h
+          simp [isCmd] at this
+        · simp at h
+
+theorem itemsTicks_noMark (pf : Timeline.Platform) (l : List Item) : Tk.loopMark ∉ itemsTicks pf l := by
+  unfold itemsTicks
+  intro h
+  obtain ⟨i, _, hi⟩ := List.mem_flatMap.mp h
+  exact itTicks_noMark pf i hi
+
+/-- an item that takes time sounds (or is silent) for at least one tick -/
+theorem itTicks_time (pf : Timeline.Platform) (i : Item) (h : i.dur ≠ 0) : ∃ tk ∈ itTicks pf i, isCmd tk = false := by
+  unfold Item.dur at h
+  unfold itTicks Timeline.noteTicks
+  by_cases t1 : i.ev.type = ev_NOTE
+  · simp only [t1, if_true]
+    by_cases hon : i.src.on = 0
+    · exact ⟨Tk.off, by simp [hon]; omega, rfl⟩
+    · exact ⟨Tk.on i.ev.param.toNat, by simp [hon], rfl⟩
+  · simp only [t1, if_false]
+    by_cases t2 : i.ev.type = ev_TIE
+    · simp only [t2, if_true]
+      by_cases hon : i.src.on = 0
+      · exact ⟨Tk.off, by simp [hon]; omega, rfl⟩
+      · exact ⟨Tk.hold, by simp [hon], rfl⟩
+    · simp only [t2, if_false]
+      by_cases t3 : i.ev.type = ev_REST
+      · simp only [t3, if_true]
+        exact ⟨Tk.off, by simp; omega, rfl⟩
+      · simp only [t3, if_false]
+        exact ⟨Tk.off, by simp; omega, rfl⟩
+
+theorem itemsTicks_time (pf : Timeline.Platform) : ∀ (l : List Item), totalDur l ≠ 0 →
+    ∃ tk ∈ itemsTicks pf l, isCmd tk = false
+  | [], h => by simp [totalDur] at h
+  | i :: is, h => by
+    rw [totalDur_cons] at h
+    rw [itemsTicks_cons]
+    by_cases hi : i.dur = 0
+    · obtain ⟨tk, h1, h2⟩ := itemsTicks_time pf is (by omega)
+      exact ⟨tk, List.mem_append_right _ h1, h2⟩
+    · obtain ⟨tk, h1, h2⟩ := itTicks_time pf i hi
+      exact ⟨tk, List.mem_append_left _ h1, h2⟩
+
+/-- what is known about a channel track of the chunk, entered at its first byte with the loop-back
+jump followed `mj` times -/
+structure ChanResult (b : Built) (pre stream : List Nat) (mj : Nat) (t : List Tk) : Prop where
+  plays : ∃ (X Y TA TB : List Tk) (loops : Bool) (s' : St),
+    Reach b.seq (4 + 4 * b.trackList.length) mj { pc := pre.length } s' ∧
+    step b.seq (4 + 4 * b.trackList.length) mj s' = .error .finished ∧
+    s'.out = (if loops then TA ++ repeatL mj (TB ++ [Tk.loopMark]) ++ TB else TA ++ TB).reverse ∧
+    mk TA = X ∧ mk TB = Y ∧ t = (if loops then X ++ Y ++ [Tk.loopMark] ++ Y else X ++ Y) ∧
+    (loops = true → ∃ tk ∈ Y, isCmd tk = false) ∧ Tk.loopMark ∉ X ∧ Tk.loopMark ∉ Y
+  walks : ∀ fuel, fuel ≥ stream.length →
+    SeqWf.walk b.seq pre.length fuel { pc := pre.length } = .ok (pre.length + stream.length)
+
+/-- **a channel track of the chunk plays the expected tick string** -/
 theorem chan_plays {song : Song} (pf : Timeline.Platform) {b : Built} (hp : PlainSong song) (hc : ChunkOK song b)
     {id : Nat} {root : List Event} (hmem : (id, root) ∈ song.tracks) {evs : List MEv}
     (hch : ChanFlat song b.conv.subMap id evs) (hfitT : ∀ ev ∈ evs, ev.type = mds_PAT → ev.arg < 256)
@@ -249,13 +417,12 @@ theorem chan_plays {song : Song} (pf : Timeline.Platform) {b : Built} (hp : Plai
     (hconv : convertTrack b.conv.subList.length b.conv.macroList.length evs = .ok stream)
     (hseq : b.seq = pre ++ stream ++ rest)
     (hseg0 : Timeline.segnoAtDepth0 0 root = true) (hcnt : segCount root ≤ 1)
-    {t : List Tk} (hexp : Timeline.expected song pf root = .ok t) :
-    ∃ T s', Reach b.seq (4 + 4 * b.trackList.length) 1 { pc := pre.length } s' ∧
-      step b.seq (4 + 4 * b.trackList.length) 1 s' = .error .finished ∧ s'.out = T.reverse ∧ mk T = t := by
+    {t : List Tk} (hexp : Timeline.expected song pf root = .ok t) (mj : Nat) :
+    ChanResult b pre stream mj t := by
   obtain ⟨items0, hperf0⟩ := perf_of_expected hexp
   have htr : song.track? id = some root := hp.track_of_mem hmem
   obtain ⟨items, ms, r, g, hperf, hem, hr, hevs⟩ := hch root htr (hp.wf hmem hperf0)
-  have hH := callH_all pf hp hc 1 limit (Nat.le_refl _)
+  have hH := callH_all pf hp hc mj limit (Nat.le_refl _)
   have hcl : closedL (parse root) := closed_of_ok (callK song limit) (spine_parse root (hp.noEnd _ _ hmem)) _ _ hperf
   have hsl : stream.length < 65536 := by
     have := hc.len; rw [hseq] at this; simp at this; omega
@@ -270,7 +437,7 @@ theorem chan_plays {song : Song} (pf : Timeline.Platform) {b : Built} (hp : Plai
     have hev : ∀ e ∈ flattenL (parse root), EvOK (CalleeNoSeg song) e := by
       rw [flatten_parse]; exact hp.evOK hmem (fun e he => he) hns
     obtain ⟨ts, hflat, hlin, hbrk, hcalls, hticks, _, hg⟩ := piece_sem b.conv.subList.length b.conv.macroList.length pf
-      b.conv.subMap b.seq (4 + 4 * b.trackList.length) 1 (callK song limit) _ hH (parse root) hcl hev 0 items hperf
+      b.conv.subMap b.seq (4 + 4 * b.trackList.length) mj (callK song limit) _ hH (parse root) hcl hev 0 items hperf
       false ms r g (by rw [flatten_parse]; exact hem) hfit
     subst hg
     have hevs' : evs = flatL ts ++ [⟨mds_FINISH, 0⟩] := by rw [hevs, hflat]; simp
@@ -278,9 +445,8 @@ theorem chan_plays {song : Song} (pf : Timeline.Platform) {b : Built} (hp : Plai
     obtain ⟨eA, hA, hstream⟩ := shape_f_conv _ _ ts hlin hbrk 0 stream hconv hsl
     obtain ⟨eA', hA', hplay⟩ := track_f_at b.conv.subList.length b.conv.macroList.length ts hlin
     rw [hA] at hA'; injection hA' with hA'; subst hA'
-    obtain ⟨s', r', hfin, ho⟩ := hplay pre b.seq (4 + 4 * b.trackList.length) 1 { pc := pre.length } hcalls
+    obtain ⟨s', r', hfin, ho⟩ := hplay pre b.seq (4 + 4 * b.trackList.length) mj { pc := pre.length } hcalls
       (by rw [← hstream]; exact hpre) rfl rfl rfl
-    refine ⟨Codec.expL b.conv.subList.length b.conv.macroList.length ts, s', r', hfin, by simpa using ho, ?_⟩
     obtain ⟨c1, c2⟩ := calls_of_piece hp hmem root (fun e he => he) limit
     have hd : ∀ i ∈ items, i.ev.type ≠ ev_DRUM_MODE := fun i hi =>
       (noseg_L (fun e => e.type ≠ ev_DRUM_MODE) (by decide) (callK song limit) (parse root)
@@ -290,7 +456,16 @@ theorem chan_plays {song : Song} (pf : Timeline.Platform) {b : Built} (hp : Plai
         (by rw [flatten_parse]; exact hns) (by rw [flatten_parse]; exact c2) 0 false items hperf i hi).2
     rw [expected_noseg song pf root items hperf hd hn] at hexp
     injection hexp with hexp
-    rw [hticks, hexp]
+    refine ⟨⟨itemsTicks pf items, [], Codec.expL b.conv.subList.length b.conv.macroList.length ts, [], false, s', r', hfin,
+      ?_, hticks, rfl, ?_, ?_, itemsTicks_noMark pf items, ?_⟩, ?_⟩
+    · simpa using ho
+    · simpa using hexp.symm
+    · intro h; cases h
+    · simp
+    intro fuel hf
+    have hw := walk_f_at b.conv.subList.length b.conv.macroList.length ts hlin eA hA pre b.seq pre.length
+      (by rw [← hstream]; exact hpre) fuel (by rw [hstream] at hf; simpa using hf)
+    rw [hw, hstream]; simp; omega
   · -- the loop point splits the track
     have hroot : root = flattenL FA ++ s :: flattenL FB := by
       rw [← flatten_parse root, hF, Tree.flattenL_append, Tree.flattenL_cons]; simp [flattenN]
@@ -330,10 +505,10 @@ theorem chan_plays {song : Song} (pf : Timeline.Platform) {b : Built} (hp : Plai
     have hevB : ∀ e ∈ flattenL FB, EvOK (CalleeNoSeg song) e :=
       hp.evOK hmem (fun e he => by rw [hroot]; simp [he]) hnB
     obtain ⟨ta, hfA, hlA, hkA, hcA, htA, _, hgA⟩ := piece_sem b.conv.subList.length b.conv.macroList.length pf
-      b.conv.subMap b.seq (4 + 4 * b.trackList.length) 1 (callK song limit) _ hH FA hclAB.1 hevA 0 iA hiA
+      b.conv.subMap b.seq (4 + 4 * b.trackList.length) mj (callK song limit) _ hH FA hclAB.1 hevA 0 iA hiA
       false msA rA gA heA (fun ev hev => hfit ev (by simp [hev]))
     obtain ⟨tb, hfB, hlB, hkB, hcB, htB, _, hgB⟩ := piece_sem b.conv.subList.length b.conv.macroList.length pf
-      b.conv.subMap b.seq (4 + 4 * b.trackList.length) 1 (callK song limit) _ hH FB hclAB.2.2 hevB 0 iB hiB
+      b.conv.subMap b.seq (4 + 4 * b.trackList.length) mj (callK song limit) _ hH FB hclAB.2.2 hevB 0 iB hiB
       true msB r g heB (fun ev hev => hfit ev (by simp [hev]))
     subst hgB
     -- items and the expected string
@@ -356,17 +531,17 @@ theorem chan_plays {song : Song} (pf : Timeline.Platform) {b : Built} (hp : Plai
       simp +decide [itTicks, item, Timeline.cmdOf, tss, hson, hsoff]
     have hall : itemsTicks pf (iA ++ item s :: iB) = itemsTicks pf iA ++ itemsTicks pf iB := by
       rw [itemsTicks_append, itemsTicks_cons, his]; rfl
-    have hTD : totalDur ([item s] ++ iB) = totalDur iB := by
-      rw [totalDur_append]; simp [totalDur, Item.dur, item, hson, hsoff]
+    have hTD : totalDur (iA ++ ([item s] ++ iB)) = totalDur iA + totalDur iB := by
+      rw [totalDur_append, totalDur_append]; simp [totalDur, Item.dur, item, hson, hsoff]
     -- the stream
     have hevs' : evs = flatL ta ++ [⟨mds_SEGNO, 0⟩] ++ flatL tb ++
         [⟨if (totalDur (iA ++ ([item s] ++ iB)) : Int) ≠ toInt (loopTime (iA ++ ([item s] ++ iB))) then mds_JUMP else mds_FINISH, 0⟩] := by
       rw [hevs, hfA, hfB]; simp [List.append_assoc]
     have hlt' : loopTime (iA ++ ([item s] ++ iB)) = some (totalDur iA) := by simpa using hLT
     rw [hlt'] at hevs'
+    have etoi : toInt (some (totalDur iA)) = (totalDur iA : Int) := rfl
     by_cases hz : totalDur (iA ++ ([item s] ++ iB)) = totalDur iA
     · -- the loop section takes no time: `FINISH`
-      have etoi : toInt (some (totalDur iA)) = (totalDur iA : Int) := rfl
       have hzi : ¬ ((totalDur (iA ++ ([item s] ++ iB)) : Int) ≠ toInt (some (totalDur iA))) := by
         rw [etoi]; omega
       rw [if_neg hzi] at hevs'
@@ -375,15 +550,21 @@ theorem chan_plays {song : Song} (pf : Timeline.Platform) {b : Built} (hp : Plai
       obtain ⟨eA', eB', hA', hB', hplay⟩ := track_z_at b.conv.subList.length b.conv.macroList.length ta tb hlA hlB
       rw [hA] at hA'; injection hA' with hA'; subst hA'
       rw [hB] at hB'; injection hB' with hB'; subst hB'
-      obtain ⟨s', r', hfin, ho⟩ := hplay pre b.seq (4 + 4 * b.trackList.length) 1 { pc := pre.length } hcA hcB
+      obtain ⟨s', r', hfin, ho⟩ := hplay pre b.seq (4 + 4 * b.trackList.length) mj { pc := pre.length } hcA hcB
         (by rw [← hstream]; exact hpre) rfl rfl rfl
-      refine ⟨Codec.expL b.conv.subList.length b.conv.macroList.length ta ++ Codec.expL b.conv.subList.length b.conv.macroList.length tb,
-        s', r', hfin, by simpa using ho, ?_⟩
       have hz' : totalDur (iA ++ item s :: iB) = totalDur iA := hz
       rw [if_pos hz'] at hexp
-      rw [mk_append, htA, htB, ← hexp, hall]
-    · have etoi : toInt (some (totalDur iA)) = (totalDur iA : Int) := rfl
-      have hzi : (totalDur (iA ++ ([item s] ++ iB)) : Int) ≠ toInt (some (totalDur iA)) := by
+      refine ⟨⟨itemsTicks pf iA, itemsTicks pf iB, Codec.expL b.conv.subList.length b.conv.macroList.length ta,
+        Codec.expL b.conv.subList.length b.conv.macroList.length tb, false, s', r', hfin, ?_, htA, htB,
+        ?_, ?_, itemsTicks_noMark pf iA, itemsTicks_noMark pf iB⟩, ?_⟩
+      · simpa using ho
+      · rw [← hexp, hall]; rfl
+      · intro h; cases h
+      intro fuel hf
+      have hw := walk_z_at b.conv.subList.length b.conv.macroList.length ta tb hlA hlB eA eB hA hB pre b.seq pre.length
+        (by rw [← hstream]; exact hpre) fuel (by rw [hstream] at hf; simpa using hf)
+      rw [hw, hstream]; simp; omega
+    · have hzi : (totalDur (iA ++ ([item s] ++ iB)) : Int) ≠ toInt (some (totalDur iA)) := by
         rw [etoi]; omega
       rw [if_pos hzi] at hevs'
       rw [hevs'] at hconv
@@ -391,15 +572,19 @@ theorem chan_plays {song : Song} (pf : Timeline.Platform) {b : Built} (hp : Plai
       obtain ⟨eA', eB', hA', hB', hplay⟩ := track_j_at b.conv.subList.length b.conv.macroList.length ta tb hlA hlB
       rw [hA] at hA'; injection hA' with hA'; subst hA'
       rw [hB] at hB'; injection hB' with hB'; subst hB'
-      obtain ⟨s', r', hfin, ho⟩ := hplay pre b.seq (4 + 4 * b.trackList.length) 1 { pc := pre.length } hcA hcB
+      obtain ⟨s', r', hfin, ho⟩ := hplay pre b.seq (4 + 4 * b.trackList.length) mj { pc := pre.length } hcA hcB
         (by rw [← hstream]; exact hpre) (by rw [← hstream]; exact hpl) rfl rfl rfl
-      refine ⟨Codec.expL b.conv.subList.length b.conv.macroList.length ta ++
-          repeatL 1 (Codec.expL b.conv.subList.length b.conv.macroList.length tb ++ [Tk.loopMark]) ++
-          Codec.expL b.conv.subList.length b.conv.macroList.length tb, s', r', hfin, by simpa using ho, ?_⟩
       have hz' : ¬ totalDur (iA ++ item s :: iB) = totalDur iA := hz
       rw [if_neg hz'] at hexp
-      rw [← hexp, hall]
-      have hcons : ∀ l : List Tk, mk (Tk.loopMark :: l) = Tk.loopMark :: mk l := fun l => rfl
-      simp [repeatL, mk_append, htA, htB, hcons, List.append_assoc]
+      have hdB : totalDur iB ≠ 0 := by omega
+      refine ⟨⟨itemsTicks pf iA, itemsTicks pf iB, Codec.expL b.conv.subList.length b.conv.macroList.length ta,
+        Codec.expL b.conv.subList.length b.conv.macroList.length tb, true, s', r', hfin, ?_, htA, htB,
+        ?_, fun _ => itemsTicks_time pf iB hdB, itemsTicks_noMark pf iA, itemsTicks_noMark pf iB⟩, ?_⟩
+      · simpa using ho
+      · rw [← hexp, hall]; simp [List.append_assoc]
+      intro fuel hf
+      have hw := walk_j_at b.conv.subList.length b.conv.macroList.length ta tb hlA hlB eA eB hA hB pre b.seq
+        (by rw [← hstream]; exact hpre) (by rw [← hstream]; exact hpl) fuel (by rw [hstream] at hf; exact hf)
+      rw [hw, hstream]
 
 end Ctrmml.SongTop
